@@ -2025,8 +2025,17 @@ func (d *Data) handleKeyValues(ctx storage.VersionedCtx, w http.ResponseWriter, 
 	return
 }
 
+// conditionalFields returns the comma-separated list of conditional fields of a request.  The
+// documented query-string name is "conditional"; "conditionals" is accepted as well.
+func conditionalFields(r *http.Request) string {
+	if fields := r.URL.Query().Get("conditional"); fields != "" {
+		return fields
+	}
+	return r.URL.Query().Get("conditionals")
+}
+
 func (d *Data) handleIngest(ctx *datastore.VersionedCtx, r *http.Request, uuid dvid.UUID) error {
-	cond_fields := r.URL.Query().Get("conditionals")
+	cond_fields := conditionalFields(r)
 	conditionals := strings.Split(cond_fields, ",")
 	replace := r.URL.Query().Get("replace") == "true"
 	data, err := io.ReadAll(r.Body)
@@ -2465,7 +2474,7 @@ func (d *Data) ServeHTTP(uuid dvid.UUID, ctx *datastore.VersionedCtx, w http.Res
 				}
 			}()
 
-			cond_fields := r.URL.Query().Get("conditionals")
+			cond_fields := conditionalFields(r)
 			conditionals := strings.Split(cond_fields, ",")
 			replace := r.URL.Query().Get("replace") == "true"
 
